@@ -128,6 +128,7 @@ func recPart(out *core.Out, sum *core.Summary, c *specCase, seed int64, salt int
 //               mode=random count=N maxn=M
 //               mode=chromatic graphs=G calls=C heur=H nmin=A nmax=B cliq=Q par=P   (chromatic.go)
 //               mode=dcycles graphs=G calls=C nmin=A nmax=B                            (chromatic.go)
+//               mode=rgen cases=<ndjson of RandGen cases>[,<more>]                     (randgen.go)
 func record(out *core.Out, args []string, seed int64, sum *core.Summary) error {
 	a := parseArgs(args)
 	switch a["mode"] {
@@ -207,6 +208,8 @@ func record(out *core.Out, args []string, seed int64, sum *core.Summary) error {
 		return recordChromatic(out, sum, a, seed)
 	case "dcycles":
 		return recordDcycles(out, sum, a, seed)
+	case "rgen":
+		return recordRgen(out, a, seed, sum)
 	default:
 		return fmt.Errorf("record structural: mode=cases|random|chromatic|dcycles required")
 	}
